@@ -443,10 +443,13 @@ func (w *World) CheckReads() (clause, detail string) {
 				c, d = "listkeys-nil", "ListKeys returned a nil key"
 				return nil
 			}
-			if w.Adversarial {
-				w.Keep("ListKeys", k)
-			}
 			got = append(got, string(k))
+			if w.Adversarial {
+				// the caller owns what ListKeys hands out: it scribbles over every returned key
+				for i := range k {
+					k[i] ^= 0xA5
+				}
+			}
 		}
 		if !equalStrings(got, want) {
 			c, d = "listkeys", fmt.Sprintf("ListKeys = %q, model %q", got, want)
@@ -458,6 +461,14 @@ func (w *World) CheckReads() (clause, detail string) {
 		ferr := w.DB.Fold(func(k, v []byte) bool {
 			got = append(got, string(k))
 			fv = append(fv, string(v))
+			if w.Adversarial { // ... and over the key and value a Fold callback is handed
+				for i := range k {
+					k[i] ^= 0xA5
+				}
+				for i := range v {
+					v[i] ^= 0xA5
+				}
+			}
 			return true
 		})
 		if ferr != nil {
@@ -479,7 +490,13 @@ func (w *World) CheckReads() (clause, detail string) {
 			it := w.DB.NewIterator(kv.IteratorOptions{Reverse: rev})
 			got = got[:0]
 			for it.Rewind(); it.Valid(); it.Next() {
-				k := string(it.Key())
+				kb := it.Key()
+				k := string(kb)
+				if w.Adversarial { // ... and over the key an iterator returns
+					for i := range kb {
+						kb[i] ^= 0xA5
+					}
+				}
 				v, err := it.Value()
 				if err != nil || string(v) != w.Model[k] {
 					c, d = "iter-value", fmt.Sprintf("iterator(reverse=%v) value of %q = %s/%s, model %s", rev, k, short(string(v)), errClass(err), short(w.Model[k]))
